@@ -154,30 +154,34 @@ fn main() {
     let mut outcome_kinds = std::collections::BTreeSet::new();
     'plan: for (k, bound) in plan {
         let sets = subsets(alpha.len(), k);
-        let mut sets_done = 0usize;
-        for set in &sets {
-            let ops: Vec<Op> = set.iter().map(|i| alpha[*i].clone()).collect();
+        struct SetOut {
+            ops: Vec<Op>,
+            machinery: Option<String>,
+            found: Vec<(Vec<u32>, (String, String))>,
+            execs: u64,
+            steps: u64,
+            outcome_keys: Vec<u64>,
+            stats: Option<choice::ExploreStats>,
+            skipped: bool,
+        }
+        let alpha_ref = &alpha;
+        let outs = util::par_map(sets.clone(), threads, |set| {
+            let ops: Vec<Op> = set.iter().map(|i| alpha_ref[*i].clone()).collect();
+            let mut so = SetOut { ops: ops.clone(), machinery: None, found: vec![], execs: 0, steps: 0, outcome_keys: vec![], stats: None, skipped: false };
             if Instant::now() > deadline {
-                run.cap_hit(&format!("time budget: {sets_done}/{} op sets of size {k} at preemption bound {bound}", sets.len()));
-                break 'plan;
+                so.skipped = true;
+                return so;
             }
             // determinism self-check: the default schedule twice
             let a = one_execution(idx, &ops, &mut Chooser::new(vec![]));
             let b = one_execution(idx, &ops, &mut Chooser::new(vec![]));
             if a.labels != b.labels || a.outcome_key != b.outcome_key {
-                vcore::report::machinery(&format!(
-                    "nondeterministic replay for ops {ops:?}: label sequences differ ({} vs {} labels)",
-                    a.labels.len(),
-                    b.labels.len()
-                ));
+                so.machinery = Some(format!("nondeterministic replay for ops {ops:?}: {:?} vs {:?}", a.labels, b.labels));
+                return so;
             }
-            let mut found: Vec<(Vec<u32>, (String, String))> = Vec::new();
-            let mut execs = 0u64;
-            let mut steps = 0u64;
-            let mut diverged: Option<String> = None;
             let stats = choice::explore(
                 bound,
-                threads,
+                1,
                 deadline,
                 u64::MAX,
                 |ch| {
@@ -185,32 +189,45 @@ fn main() {
                     (v, ch.diverged.clone())
                 },
                 |choices, (v, div)| {
-                    execs += 1;
-                    steps += v.steps as u64;
-                    outcome_kinds.insert(v.outcome_key);
+                    so.execs += 1;
+                    so.steps += v.steps as u64;
+                    so.outcome_keys.push(v.outcome_key);
                     if let Some(d) = div {
-                        diverged = Some(d);
+                        so.machinery = Some(d);
                         return false;
                     }
                     if let Some(p) = v.problem {
-                        found.push((choices, p));
+                        so.found.push((choices, p));
                         return false; // first (fewest-deviation) counterexample
                     }
                     true
                 },
             );
-            if let Some(d) = diverged {
-                vcore::report::machinery(&format!("ops {ops:?}: {d}"));
+            so.stats = Some(stats);
+            so
+        });
+        let mut sets_done = 0usize;
+        let mut capped = false;
+        for so in outs {
+            if let Some(m) = so.machinery {
+                vcore::report::machinery(&format!("ops {:?}: {m}", so.ops));
             }
-            run.add("executions", execs);
-            run.add("transitions", steps);
-            run.add("evaluations", execs);
+            if so.skipped {
+                capped = true;
+                continue;
+            }
+            let ops = so.ops;
+            run.add("executions", so.execs);
+            run.add("transitions", so.steps);
+            run.add("evaluations", so.execs);
             run.add("op_sets", 1);
             run.distinct(util::fnv64(format!("{ops:?}").as_bytes()));
+            outcome_kinds.extend(so.outcome_keys);
+            let stats = so.stats.unwrap();
             if sets_done < 2 {
                 run.sample(json!({"ops": format!("{ops:?}"), "preemption_bound": bound, "executions": stats.executions, "max_choice_points": stats.max_depth, "per_bound_level": stats.per_level}));
             }
-            for (choices, (sig, msg)) in found {
+            for (choices, (sig, msg)) in so.found {
                 run.violation(Violation {
                     signature: format!("{property}|step|{sig}|{}", ops.iter().map(kind).collect::<Vec<_>>().join("+")),
                     summary: format!("ops {ops:?} schedule {choices:?}: {msg}"),
@@ -218,10 +235,14 @@ fn main() {
                 });
             }
             if stats.capped {
-                run.cap_hit(&format!("time budget inside op set {ops:?} (size {k}, bound {bound}); completed bound {:?}", stats.completed_bound));
-                break 'plan;
+                capped = true;
+            } else {
+                sets_done += 1;
             }
-            sets_done += 1;
+        }
+        if capped {
+            run.cap_hit(&format!("time budget: {sets_done}/{} op sets of size {k} completed at preemption bound {bound}", sets.len()));
+            break 'plan;
         }
         completed.push(format!("{k} concurrent calls: all {} op sets, preemption bound {bound}", sets.len()));
     }
